@@ -84,6 +84,13 @@ class BaseBoom(BaseException):
     """A failure that is not an Exception (as the SDK's own SuspendExecution / BackgroundThreadError, KeyboardInterrupt)."""
 
 
+class HostileBoom(Exception):
+    """A failure whose text cannot be produced (a buggy __str__): legal to raise, and still the holder's own exception."""
+
+    def __str__(self):
+        return {"not": "a string"}  # str(e) raises TypeError
+
+
 def lock_trial(case):
     from aws_durable_execution_sdk_python.exceptions import OrderedLockError
     from aws_durable_execution_sdk_python.threading import OrderedLock
@@ -139,17 +146,20 @@ def lock_trial(case):
                             from aws_durable_execution_sdk_python.exceptions import SuspendExecution
 
                             raise SuspendExecution("injected in critical section")
+                        if case.get("inject_cls") == "hostile":
+                            raise HostileBoom("injected in critical section")
                         raise Boom("injected in critical section")
                 outcomes[tid].append("ok")
             except OrderedLockError:
                 outcomes[tid].append("lock-error")
                 break
-            except (Boom, BaseBoom):
+            except (Boom, BaseBoom, HostileBoom):
                 outcomes[tid].append("own-exception")
                 break
             except BaseException as e:  # noqa: BLE001
                 if type(e).__name__ != "SuspendExecution":
-                    raise
+                    outcomes[tid].append("other:" + type(e).__name__)  # neither the holder's own exception nor a lock error
+                    break
                 outcomes[tid].append("own-exception")
                 break
             except OrderedLockError:
@@ -276,7 +286,7 @@ def cases(tier, seed):
         if kind == "lock" and rng.random() < 0.45:
             inject = (rng.randrange(k), rng.randrange(rounds))
         yield {"label": kind, "kind": kind, "seed": seed * 1000003 + i, "threads": k, "rounds": rounds, "inject": inject,
-               "inject_cls": rng.choice(["exc", "exc", "base", "suspend"]) if inject else None,
+               "inject_cls": rng.choice(["exc", "exc", "base", "suspend", "hostile"]) if inject else None,
                "perturb": rng.choice(["none", "yield", "yield", "pct", "dense"])}
 
 
